@@ -91,18 +91,6 @@ Theorem C11_handler : forall (mpd_at : Z -> elem) (t1 pt1_ms t2 : Z) ptO ptN o n
 Proof. exact handler_statuses. Qed.
 Print Assumptions C11_handler.
 
-(** The second sentence of the property is false for the code: two documents that carry all
-    mandatory ids, Period children [ProgramInformation; BaseURL a; BaseURL b; AdaptationSet] vs
-    [ProgramInformation; BaseURL a; AdaptationSet]; the removal is addressed BaseURL[3] and the
-    patch cannot be applied. *)
-Theorem C11_general_refuted :
-  ids_present w_old = true /\ ids_present w_new = true /\
-  exists pd, mpdDiff w_old w_new = Ok pd /\
-    In (ORemove [mkStep "MPD" PNone; mkStep "Period" (PAttr "id" "P0"); mkStep "BaseURL" (PIdx 3)]) (p_ops pd) /\
-    apply_ops (p_ops pd) w_old = None.
-Proof. exact general_refuted. Qed.
-Print Assumptions C11_general_refuted.
-
 (** The model of MyersDiff returns a valid script for all pairs of lists of length <= 4 over three
     letters, and of length <= 6 over two letters (exhaustive evaluation; the bounds are part of the
     statement; length <= 5 over three letters: coq/thorough/C11Bounded.v, thorough tier). *)
